@@ -1,0 +1,30 @@
+//go:build verif
+
+package stablemap
+
+// Contracts for the deductive checker in /verif (comment-only file; adds no code).
+//
+// The read side of the insertion-ordered map: lookups go through the built-in map of
+// nodes and change nothing.
+//
+//@ func Map.Len
+//@   requires !isnil(m)
+//@   ensures isnil(m.nodes) ==> result == 0
+//@   ensures !isnil(m.nodes) ==> result == len(m.nodes)
+//@   modifies nothing
+//
+//@ func Map.Has
+//@   requires !isnil(m)
+//@   ensures result == (!isnil(m.nodes) && has(m.nodes, k) && !isnil(m.nodes[k]))
+//@   modifies nothing
+//
+//@ func Map.Get
+//@   requires !isnil(m)
+//@   ensures result1 == (!isnil(m.nodes) && has(m.nodes, k) && !isnil(m.nodes[k]))
+//@   ensures result1 ==> result0 == m.nodes[k].value
+//@   modifies nothing
+//
+//@ func Map.GetOrZero
+//@   requires !isnil(m)
+//@   ensures (!isnil(m.nodes) && has(m.nodes, k) && !isnil(m.nodes[k])) ==> result == m.nodes[k].value
+//@   modifies nothing
